@@ -15,6 +15,7 @@ from ..engine.facts import dotted, const, src, walk_func
 from ..engine import pattern as P
 from .common import calls, pn, access_paths, assigned_from, canon
 from . import c18  # precedence (coding comment > input_encoding > utf-8) is registered for C20 there
+from . import c05  # attribute-pieces (attribute expressions are re-emitted unstripped, so their lines stay put) is registered for C20 there
 
 # construct -> (parsetree class, expression(s) the scanned code must include)
 REQUIRED = {
